@@ -594,6 +594,206 @@ func ruleQ5(c *Ctx) {
 	c.check(okOrder, "Q5", "order", fd.Pos(), "a mask mismatch returns false before the pairwise loop")
 }
 
+// Q8: the pairwise list comparisons treat their two lists alike. In URIParamsLstEq / URIHdrsLstEq every branch
+// condition either compares the same thing on both sides with a commutative comparator (== != CmpEq bytes.Equal:
+// operand 1 is operand 2 with the lists, buffers swapped), or is a loop bound, or looks at one side only at a
+// quantity that a dominating two-sided equality has already made equal on both sides (the parameter type). A test of
+// one list's value alone makes cmp(a,b) differ from cmp(b,a).
+func ruleQ8(c *Ctx) {
+	n := 0
+	for _, fnName := range []string{"URIParamsLstEq", "URIHdrsLstEq"} {
+		fn := c.SFuncs[fnName]
+		if fn == nil {
+			c.fail("Q8", fnName, token.NoPos, "not found")
+			continue
+		}
+		// sides: pointer parameters in order -> list 1 / list 2; slice parameters in order -> buffer 1 / 2
+		tag := map[*ssa.Parameter]string{}
+		np, nb := 0, 0
+		for _, p := range fn.Params {
+			switch p.Type().Underlying().(type) {
+			case *types.Pointer:
+				np++
+				tag[p] = "L" + itoa(np)
+			case *types.Slice:
+				nb++
+				tag[p] = "B" + itoa(nb)
+			}
+		}
+		if np != 2 || nb != 2 {
+			c.fail("Q8", fnName+":sig", fn.Pos(), "unexpected signature")
+			continue
+		}
+		flip := map[string]string{"L1": "L2", "L2": "L1", "B1": "B2", "B2": "B1"}
+		var render func(v ssa.Value, swap bool, depth int) string
+		render = func(v ssa.Value, swap bool, depth int) string {
+			if depth > 12 {
+				return "…"
+			}
+			switch x := v.(type) {
+			case *ssa.Parameter:
+				t := tag[x]
+				if swap && t != "" {
+					t = flip[t]
+				}
+				return t
+			case *ssa.Const:
+				if x.Value == nil {
+					return "nil"
+				}
+				return x.Value.ExactString()
+			case *ssa.Phi:
+				if isIntType(x.Type()) {
+					return "idx"
+				}
+				return "phi"
+			case *ssa.FieldAddr:
+				st := derefStruct(x.X.Type())
+				f := "?"
+				if st != nil {
+					f = st.Field(x.Field).Name()
+				}
+				return render(x.X, swap, depth+1) + "." + f
+			case *ssa.Field:
+				return render(x.X, swap, depth+1) + ".#" + itoa(x.Field)
+			case *ssa.IndexAddr:
+				return render(x.X, swap, depth+1) + "[" + render(x.Index, swap, depth+1) + "]"
+			case *ssa.UnOp:
+				return x.Op.String() + render(x.X, swap, depth+1)
+			case *ssa.BinOp:
+				return "(" + render(x.X, swap, depth+1) + x.Op.String() + render(x.Y, swap, depth+1) + ")"
+			case *ssa.Convert:
+				return render(x.X, swap, depth+1)
+			case *ssa.ChangeType:
+				return render(x.X, swap, depth+1)
+			case *ssa.Slice:
+				return render(x.X, swap, depth+1) + "[:]"
+			case *ssa.Call:
+				name := "call"
+				if cal := x.Call.StaticCallee(); cal != nil {
+					name = cal.Name()
+				} else if b, ok := x.Call.Value.(*ssa.Builtin); ok {
+					name = b.Name()
+				}
+				var as []string
+				for _, a := range x.Call.Args {
+					as = append(as, render(a, swap, depth+1))
+				}
+				return name + "(" + strings.Join(as, ",") + ")"
+			}
+			return "?" + v.Name()
+		}
+		sidesOf := func(r string) (one, two bool) {
+			return strings.Contains(r, "L1") || strings.Contains(r, "B1"), strings.Contains(r, "L2") || strings.Contains(r, "B2")
+		}
+		norm := func(r string) string {
+			return strings.NewReplacer("L1", "L", "L2", "L", "B1", "B", "B2", "B").Replace(r)
+		}
+		type eqFact struct {
+			from *ssa.BasicBlock // block whose domination means the equality holds
+			what string
+		}
+		var equated []eqFact
+		type leaf struct {
+			b      *ssa.BasicBlock
+			cond   ssa.Value
+			x, y   ssa.Value
+			op     string
+			commut bool
+		}
+		var leaves []leaf
+		for _, b := range fn.Blocks {
+			iff, ok := b.Instrs[len(b.Instrs)-1].(*ssa.If)
+			if !ok {
+				continue
+			}
+			cond := iff.Cond
+			neg := false
+			if u, ok := cond.(*ssa.UnOp); ok && u.Op == token.NOT {
+				cond = u.X
+				neg = true
+			}
+			switch x := cond.(type) {
+			case *ssa.BinOp:
+				_, px := x.X.(*ssa.Phi)
+				_, py := x.Y.(*ssa.Phi)
+				if (px && isIntType(x.X.Type())) || (py && isIntType(x.Y.Type())) {
+					continue // loop bound
+				}
+				lf := leaf{b: b, cond: cond, x: x.X, y: x.Y, op: x.Op.String(), commut: x.Op == token.EQL || x.Op == token.NEQ}
+				leaves = append(leaves, lf)
+				if x.Op == token.EQL || x.Op == token.NEQ {
+					r1, r2 := render(x.X, false, 0), render(x.Y, true, 0)
+					o1, t1 := sidesOf(render(x.X, false, 0))
+					o2, t2 := sidesOf(render(x.Y, false, 0))
+					if r1 == r2 && ((o1 && !t1 && t2 && !o2) || (t1 && !o1 && o2 && !t2)) {
+						idx := 0
+						if (x.Op == token.NEQ) != neg {
+							idx = 1
+						}
+						equated = append(equated, eqFact{b.Succs[idx], norm(render(x.X, false, 0))})
+					}
+				}
+			case *ssa.Call:
+				name := ""
+				if cal := x.Call.StaticCallee(); cal != nil {
+					name = cal.Name()
+				}
+				if len(x.Call.Args) == 2 {
+					leaves = append(leaves, leaf{b: b, cond: cond, x: x.Call.Args[0], y: x.Call.Args[1], op: name, commut: name == "CmpEq" || name == "Equal"})
+				} else {
+					leaves = append(leaves, leaf{b: b, cond: cond, x: x, op: name})
+				}
+			default:
+				// a plain bool variable (found flag): no side
+			}
+		}
+		cnt := 0
+		for _, lf := range leaves {
+			var rs []string
+			rs = append(rs, render(lf.x, false, 0))
+			if lf.y != nil {
+				rs = append(rs, render(lf.y, false, 0))
+			}
+			one, two := sidesOf(strings.Join(rs, " "))
+			if !one && !two {
+				continue
+			}
+			cnt++
+			n++
+			key := fmt.Sprintf("%s:cond#%d", fnName, cnt)
+			desc := lf.op + "(" + strings.Join(rs, ", ") + ")"
+			if lf.y == nil {
+				desc = rs[0]
+			}
+			if one && two {
+				okm := lf.y != nil && lf.commut && render(lf.x, false, 0) == render(lf.y, true, 0)
+				c.check(okm, "Q8", key, lf.cond.Pos(), "two-sided condition "+desc+" compares the same quantity of both lists with a commutative comparator (mirror image under swapping the lists)")
+				continue
+			}
+			// one-sided: every side-bearing operand must already be equal on both sides
+			okEq := true
+			for _, r := range rs {
+				o, t := sidesOf(r)
+				if !o && !t {
+					continue
+				}
+				found := false
+				for _, e := range equated {
+					if e.what == norm(r) && e.from.Dominates(lf.b) {
+						found = true
+					}
+				}
+				if !found {
+					okEq = false
+				}
+			}
+			c.check(okEq, "Q8", key, lf.cond.Pos(), "one-sided condition "+desc+" looks only at a quantity that a dominating two-sided equality made equal in both lists; otherwise the result depends on the order of the arguments")
+		}
+	}
+	c.check(n >= 6, "Q8", "conditions", token.NoPos, fmt.Sprintf("%d side-bearing branch conditions inspected (frozen minimum 6)", n))
+}
+
 func init() {
 	register(&PropDef{
 		ID: "C15",
@@ -603,6 +803,7 @@ func init() {
 			{"Q3", "component -> comparator table: type/port ==, user/password bytes.Equal, host and parameter/header names and values CmpEq; URIParamResolve's six names under their own length cases via CmpEq; type flags distinct bits", ruleQ3},
 			{"Q4", "the boolean result of URICmp (URICmpShort inlined) tabulated over all assignments of comparison and flag atoms is monotone non-decreasing in each of the six skip flags, every comparison is needed when nothing is skipped, and each flag guards the component it names", ruleQ4},
 			{"Q6", "the raw list comparisons parse into fixed-capacity temporary arrays: the overflow indicator of both lists must be consulted, otherwise elements beyond the capacity are dropped silently and the verdict depends on element order", ruleQ6},
+			{"Q8", "the pairwise list comparisons treat their two lists alike: in URIParamsLstEq / URIHdrsLstEq every side-bearing branch condition is a commutative comparison of mirror-image operands, a loop bound, or a one-sided look at a quantity already equated on both sides by a dominating two-sided equality — no test of one list's value alone", ruleQ8},
 			{"Q7", "URIHdrsLstEq: equal counts are required before the one-directional containment loop (necessary for symmetry), and a missing header returns false", ruleQ7},
 			{"Q5", "the must-be-in-both mask is exactly user|ttl|method|maddr and is tested before the pairwise loop", ruleQ5},
 		},
